@@ -111,6 +111,13 @@ func (e *Enc) encodeCall(c *ssa.CallCommon, instr ssa.Instruction, pos token.Pos
 	if fc == nil && kind == "dynamic" {
 		e.note("call through function value without protocol contract")
 	}
+	if kind == "func" && fn != nil && (fc == nil || fc.Flags["inline"]) {
+		if _, isDefer := instr.(*ssa.Defer); !isDefer {
+			if res, ok := e.tryInline(fn, c, args); ok {
+				return res
+			}
+		}
+	}
 	return e.applyCall(name, kind, fn, fc, c, sig, args, argTypes, pos)
 }
 
@@ -180,8 +187,53 @@ func (e *Enc) applyCall(name, kind string, fn *ssa.Function, fc *FuncContract, c
 			e.oblige("pre", name+"/"+label, pos, t.T, cl.Props, "requires "+cl.Src)
 		}
 	}
-	// recursion / termination bookkeeping is done by the audit (call graph cycles)
+	// caller-side call-site obligations:  at <callee> requires ...
+	if e.fc != nil {
+		for i, at := range e.fc.At {
+			if at.Callee != name {
+				continue
+			}
+			cenv := e.fnEnv(pre)
+			for k, v := range env.vars {
+				if _, clash := cenv.vars[k]; !clash {
+					cenv.vars[k] = v
+				}
+				cenv.vars["callee."+k] = v
+			}
+			// callee parameters are also available as $0, $1, ...
+			for j, a := range args {
+				cenv.vars[fmt.Sprintf("arg%d", j)] = TV{T: e.coerce(a), Typ: argTypes[j]}
+			}
+			t, err := cenv.Eval(at.Clause.Expr)
+			label := at.Clause.Label
+			if label == "" {
+				label = "a" + itoa(i)
+			}
+			if err != nil {
+				e.contractError(e.name, at.Clause, err, pos)
+				continue
+			}
+			e.oblige("at", name+"/"+label, pos, t.T, at.Clause.Props, "at "+name+" requires "+at.Clause.Src)
+		}
+	}
 
+	// a call from execution code into the compile API (where execution reachability is cut) needs a frame contract
+	if e.frameOn() && fn != nil && fn.Blocks != nil && e.p.isCompileEntry(fn) {
+		if fc == nil || !fc.HasAssigns {
+			e.oblige("frame", "call/"+name+"/no-assigns-contract", pos, False, []string{"C04", "C05"}, "compile API called during execution without an assigns contract")
+		} else {
+			for _, a := range fc.Assigns {
+				for _, k := range e.assignKeys(fc, a) {
+					parts := strings.Split(k, "|")
+					ok := False
+					if parts[0] == "F" && (e.regionOfStruct(parts[1]) == "perexec" || e.regionOfStruct(parts[1]) == "scratch") {
+						ok = True
+					}
+					e.oblige("frame", "call/"+name+"/"+k, pos, ok, []string{"C04", "C05"}, "callee "+name+" may write "+k+" of an object that is not fresh")
+				}
+			}
+		}
+	}
 	// havoc
 	var mod KeySet
 	if fc != nil && fc.HasAssigns {
@@ -274,9 +326,13 @@ func (e *Enc) havocForCall(mod KeySet, at ssa.Instruction, args []Val) {
 		return
 	}
 	unesc := e.unescapedAllocs(at)
+	nowBefore := e.cur.now
+	pre := e.cur.clone()
 	for _, k := range keys {
 		old, nw := e.havocKey(e.cur, k)
 		parts := strings.Split(k, "|")
+		e.monotoneAssume(k, old, nw)
+		e.initOnlyAssume(k, old, nw, nowBefore)
 		for _, a := range unesc {
 			switch parts[0] {
 			case "F":
@@ -290,6 +346,21 @@ func (e *Enc) havocForCall(mod KeySet, at ssa.Instruction, args []Val) {
 			case "E":
 				if at, isArr := a.typ.Underlying().(*types.Array); isArr && e.p.elemKey(at.Elem()) == k {
 					e.assert(Eq(Select(nw, a.ref), Select(old, a.ref)))
+				}
+				// in-bounds elements of append-only slices held in fields of an unescaped object
+				if st, isStruct := a.typ.Underlying().(*types.Struct); isStruct && e.p.AppendOnly[k] {
+					if _, local, _ := e.p.structSortName(a.typ); local {
+						for fi := 0; fi < st.NumFields(); fi++ {
+							sl, ok := st.Field(fi).Type().Underlying().(*types.Slice)
+							if !ok || e.p.elemKey(sl.Elem()) != k {
+								continue
+							}
+							h := Select(e.heapGet(pre, e.p.fieldKey(a.typ, fi)), a.ref)
+							q := fmt.Sprintf("(forall ((qi Int)) (! (=> (and (>= qi 0) (< qi (s_len %s))) (= (select (select %s (s_arr %s)) (+ (s_off %s) qi)) (select (select %s (s_arr %s)) (+ (s_off %s) qi)))) :pattern ((select (select %s (s_arr %s)) (+ (s_off %s) qi)))))",
+								h.S, nw.S, h.S, h.S, old.S, h.S, h.S, nw.S, h.S, h.S)
+							e.assert(mk(SBool, q))
+						}
+					}
 				}
 			}
 		}
@@ -443,6 +514,7 @@ func (e *Enc) encodeBuiltin(c *ssa.CallCommon, instr ssa.Instruction, pos token.
 		mt := c.Args[0].Type().Underlying().(*types.Map)
 		mk := e.p.mapKey(mt)
 		e.frameObligation(instr, "mapdelete", mk, m, pos)
+		e.writersObligation(mk, m, pos)
 		hk := mapHasKey(mk)
 		h := e.heapGet(e.cur, hk)
 		e.heapSet(e.cur, hk, e.define("H_mh", Store(h, m, Store(Select(h, m), k, False))))
@@ -500,6 +572,29 @@ func (e *Enc) encodeAppend(c *ssa.CallCommon, instr ssa.Instruction, pos token.P
 	}
 	_ = srcStr
 	_ = isStr
+	// caller-side obligations on appended elements:  at append[T] requires P(elem)
+	if e.fc != nil && srcSlice.S != "" {
+		want := "append[" + e.p.relTypeString(st.Elem()) + "]"
+		for i, at := range e.fc.At {
+			if at.Callee != want {
+				continue
+			}
+			env := e.fnEnv(e.cur)
+			elem0 := Select(Select(e.heapGet(e.cur, ek), SliceArr(srcSlice)), SliceOff(srcSlice))
+			env.vars["elem"] = TV{T: e.define("appelem", elem0), Typ: st.Elem()}
+			label := at.Clause.Label
+			if label == "" {
+				label = "a" + itoa(i)
+			}
+			t, err := env.Eval(at.Clause.Expr)
+			if err != nil {
+				e.contractError(e.name, at.Clause, err, pos)
+				continue
+			}
+			// exactly one element must be appended for the clause to cover the append
+			e.oblige("at", want+"/"+label, pos, And(Eq(addLen, IntLit(1)), t.T), at.Clause.Props, "at "+want+" requires "+at.Clause.Src)
+		}
+	}
 	newLen := e.define("applen", Add(SliceLen(s), addLen))
 	inPlace := e.fresh("app_inplace", SBool)
 	e.assert(Implies(inPlace, Le(newLen, SliceCap(s))))
@@ -661,8 +756,13 @@ func (e *Enc) loopHeader(b *ssa.BasicBlock, li *loopInfo, preds []*ssa.BasicBloc
 		e.vals[phi] = Val{T: c, Typ: phi.Type()}
 		e.assume(e.typeInv(c, phi.Type(), e.cur.now))
 	}
+	// constructor-only fields: the loop body (this very function) may write the objects it allocated itself,
+	// so only objects older than this activation are known to be unchanged
+	nowBeforeLoop := e.now0
 	for _, k := range e.expandKeys(li.mod) {
-		e.havocKey(e.cur, k)
+		old, nw := e.havocKey(e.cur, k)
+		e.monotoneAssume(k, old, nw)
+		e.initOnlyAssume(k, old, nw, nowBeforeLoop)
 	}
 	var mls []*ssa.Alloc
 	for a := range li.modLocals {
@@ -871,6 +971,13 @@ func (e *Enc) checkPost(results []Val) {
 		}
 	}
 	pos := e.fn.Pos()
+	// lock discipline: every lock taken is released on every return path
+	if _, used := e.heap0["gh|$held"]; used {
+		e.obligeNamed(e.name+"/lock/balanced", "lock", "balanced", pos, Eq(e.heldArr(), e.heap0["gh|$held"]), []string{"C05", "C20"}, "locks held at return equal locks held at entry")
+		if e.fnFlag("singlecs") {
+			e.obligeNamed(e.name+"/lock/single-critical-section", "lock", "single-critical-section", pos, BoolLit(e.lockCount <= 1), []string{"C05", "C20"}, "the function takes its lock at most once (lookup and fill form one critical section)")
+		}
+	}
 	// struct invariants of objects allocated here must hold when the function returns
 	e.checkAllocInvariants(pos)
 	if e.fc == nil {
@@ -1139,4 +1246,79 @@ var fileEffect = map[string]bool{
 	"(io/fs.FS).Open": true, "(fs.FS).Open": true, "(net/http.FileSystem).Open": true, "(http.FileSystem).Open": true,
 	"fs.ReadFile": true, "filepath.Abs": true, "filepath.Glob": true, "filepath.Walk": true, "filepath.WalkDir": true, "filepath.EvalSymlinks": true,
 	"os.DirFS": true, "os.Chdir": true, "os.Remove": true, "os.Rename": true, "os.Mkdir": true, "os.MkdirAll": true,
+}
+
+// guardObligation: access to a field declared `guarded T.f by T.m` needs the mutex of the same object held
+// (objects still under construction in this function are exempt).
+func (e *Enc) guardObligation(a *Addr, pos token.Pos, what string) {
+	if a == nil || a.Kind != "field" {
+		return
+	}
+	st := a.Struct.Underlying().(*types.Struct)
+	key := e.p.structKeyName(a.Struct) + "." + st.Field(a.Field).Name()
+	mf, ok := e.p.Contracts.Guarded[key]
+	if !ok {
+		return
+	}
+	parts := strings.SplitN(mf, ".", 2)
+	midx := -1
+	for i := 0; i < st.NumFields(); i++ {
+		if st.Field(i).Name() == parts[1] {
+			midx = i
+		}
+	}
+	if midx < 0 {
+		e.obligeNamed(e.name+"/contract-applies/guarded/"+key, "contract-applies", key, pos, False, []string{"C05", "C20"}, "guarded declaration names an unknown mutex field "+mf)
+		return
+	}
+	m := e.addrToTerm(&Addr{Kind: "field", Base: a.Base, Struct: a.Struct, Field: midx})
+	held := e.heldArr()
+	e.oblige("guard", what+"/"+key, pos, Or(Select(held, m), Ge(Birth(a.Base), e.now0)), []string{"C05", "C20"}, "access to "+key+" requires "+mf+" to be held")
+}
+
+// monotoneAssume: a field declared `monotone T.f` only ever changes from false to true.
+func (e *Enc) monotoneAssume(key string, old, nw Term) {
+	parts := strings.Split(key, "|")
+	if len(parts) != 3 || parts[0] != "F" || !e.p.Contracts.Monotone[parts[1]+"."+parts[2]] {
+		return
+	}
+	q := fmt.Sprintf("(forall ((qo Int)) (! (=> (select %s qo) (select %s qo)) :pattern ((select %s qo))))", old.S, nw.S, nw.S)
+	e.assert(mk(SBool, q))
+}
+
+// monotoneObligation at a store to a monotone field.
+func (e *Enc) monotoneObligation(a *Addr, v Term, pos token.Pos) {
+	if a.Kind != "field" {
+		return
+	}
+	st := a.Struct.Underlying().(*types.Struct)
+	key := e.p.structKeyName(a.Struct) + "." + st.Field(a.Field).Name()
+	if !e.p.Contracts.Monotone[key] {
+		return
+	}
+	old := Select(e.heapGet(e.cur, e.p.fieldKey(a.Struct, a.Field)), a.Base)
+	e.oblige("monotone", key, pos, Or(Ge(Birth(a.Base), e.now0), Implies(old, v)), []string{"C03"}, key+" never goes from true to false")
+}
+
+// writersObligation: direct writes to a key with a `writers` declaration are only allowed in the listed functions.
+func (e *Enc) writersObligation(key string, base Term, pos token.Pos) {
+	allowed, ok := e.p.Contracts.Writers[key]
+	if !ok {
+		return
+	}
+	for _, a := range allowed {
+		if a == e.name {
+			return
+		}
+	}
+	e.oblige("writers", key, pos, Ge(Birth(base), e.now0), e.p.Contracts.WritersProps[key], "only "+strings.Join(allowed, ", ")+" may write "+key+" of an existing object")
+}
+
+// initOnlyAssume: constructor-only fields of objects that existed before the havoc keep their value.
+func (e *Enc) initOnlyAssume(key string, old, nw, nowBefore Term) {
+	if !e.p.InitOnly[key] {
+		return
+	}
+	q := fmt.Sprintf("(forall ((qo Int)) (! (=> (< (birth qo) %s) (= (select %s qo) (select %s qo))) :pattern ((select %s qo))))", nowBefore.S, nw.S, old.S, nw.S)
+	e.assert(mk(SBool, q))
 }
